@@ -318,3 +318,37 @@ def manager_scenes(ctx, d):
     ctx.cls("frame_" + d["frame"])
     ctx.cls("policy_" + d["policy"])
     ctx.mark_nontrivial(len(labels_with_results & set(targets)) >= 2)
+
+
+# ---- (c3) the 2D pipeline (ROI objects; AP only, no APH) ---------------------------------------------
+
+
+def _mgr_cases2d(tier):
+    from vlib import mgrlib as MG
+
+    return MG.manager_cases2d(tier, tasks=("detection2d", "tracking2d"))
+
+
+@CHECK.given("manager_scenes2d", _mgr_cases2d, quick=80, thorough=3000)
+def manager_scenes2d(ctx, d):
+    from vlib import mgrlib as MG
+    from vlib import scorelib as SL
+
+    run = MG.run_case2d(ctx, d)
+    if run is None:
+        return
+    targets, pol = d["targets"], d["policy"]
+    labels_with_results = set()
+    for res in run["results"]:
+        SL.check_maps(ctx, res.metrics_score.maps, [res], targets, pol, "frame2d")
+        for m in res.metrics_score.maps:
+            ctx.require(not m.aphs, "aph-for-2d", "a 2D Map carries APH scores")
+        for r in res.object_results:
+            labels_with_results.add(r.estimated_object.semantic_label.label.value)
+    scene = None
+    with ctx.under_test("get_scene_result"):
+        scene = run["mgr"].get_scene_result()
+    if scene is not None:
+        SL.check_maps(ctx, scene.maps, run["mgr"].frame_results, targets, pol, "scene2d")
+    ctx.cls("task_" + d["task"])
+    ctx.mark_nontrivial(len(labels_with_results & set(targets)) >= 2)
